@@ -23,6 +23,11 @@ def build_db(k2, dbdir, rng, opts, heavy):
         ops.append('flush')
         if phase == 1: ops.append('crange 0 * *')
     for _ in range(rng.range(3, 8)): batch()          # stays in the log
+    # one batch whose record spans several 32 KiB log blocks (FIRST / MIDDLE / LAST fragments)
+    bi = len(batches); ups = [(b'm%05d' % bi, '@9:%d' % (bi % 256)), (b'big1', '@40000:7'), (b'big2', '@70000:9')]
+    ops.append('batch %s 0' % ','.join('p%s:%s' % (k3lib.khex(k), v) for k, v in ups))
+    batches.append({'op_index': len(ops) - 1, 'sync': False, 'updates': ups})
+    for _ in range(2): batch()
     ops.append('layout')
     rc, out, err = k2lib.run_c(k2, dbdir, opts, ops)
     calls = k2lib.parse_trace(out)
@@ -36,6 +41,7 @@ def mutate(data, pos, kind, rng):
     elif kind == 'zero': b[pos] = 0
     elif kind == 'ff': b[pos] = 0xff
     elif kind == 'trunc': b = b[:pos]
+    elif kind == 'zero7': b[pos:pos + 7] = bytes(min(7, len(b) - pos))
     elif kind == 'sector':
         s = (pos // 512) * 512; b[s:s + 512] = bytes(min(512, len(b) - s))
     return bytes(b)
@@ -111,7 +117,7 @@ def run(rep, tier, seed):
     ndb = 2 if tier == 'quick' else 5
     jobs = []; hist = {}
     for d in range(ndb):
-        opts = {'write_buffer': 65536, 'block_size': 1024, 'paranoid': 1, 'verify': 1, 'bloom': 10 if d % 2 == 0 else 0,
+        opts = {'write_buffer': 4194304, 'block_size': 1024, 'paranoid': 1, 'verify': 1, 'bloom': 10 if d % 2 == 0 else 0,
                 'compression': 1 if d % 3 == 2 else 0, 'mmap': d % 2, 'cache': 0}
         src = os.path.join(out, 'src%d' % d)
         content, allkeys, batches, names = build_db(k2, src, rng, dict(opts, paranoid=0, verify=0), heavy=(d % 2 == 1))
@@ -128,6 +134,15 @@ def run(rep, tier, seed):
             else:
                 pos = list(range(size))
             per_file[n] = len(pos)
+            if n.endswith('.log'):
+                # whole sectors / headers zeroed exactly at the block boundaries inside the multi-block record
+                for b in range(32768, size, 32768):
+                    for kd in ('sector', 'zero7'):
+                        jobs.append((k2, src, os.path.join(out, 'w%d' % len(jobs)), opts, n, b, kd, rng.next(), content, allkeys, batches))
+                        hist[kd] = hist.get(kd, 0) + 1
+                # the same with paranoid_checks off (records may be lost, but whole batches only)
+                for b in range(32768, size, 32768):
+                    jobs.append((k2, src, os.path.join(out, 'w%d' % len(jobs)), dict(opts, paranoid=0), n, b, 'sector', rng.next(), content, allkeys, batches))
             for p in pos:
                 kinds = ['flip', rng.choice(['zero', 'ff'])] if tier == 'quick' else ['flip', 'flip', 'zero', 'ff']
                 if rng.chance(1, 6) or tier != 'quick': kinds.append('trunc')
